@@ -108,7 +108,9 @@ def run(ctx):
         # R-FALLBACK
         fallback_fns = {}
         for fi in ctx.prog.functions.values():
-            if fi.parent is None and any(isinstance(n, ast.IfExp) and "default_rng" in norm(n) for n in ast.walk(fi.node)) and "rng" in [a.arg for a in fi.params]:
+            # a helper that builds its own generator when none is handed in: `rng if rng is not None else default_rng()`,
+            # `rng or default_rng()`, `if rng is None: rng = default_rng()`
+            if fi.parent is None and "rng" in [a.arg for a in fi.params] and any(isinstance(n, ast.Call) and norm(n.func).endswith("default_rng") and any(isinstance(p_, (ast.IfExp, ast.If, ast.BoolOp)) for p_ in [x for x in ast.walk(fi.node) if any(y is n for y in ast.walk(x))]) for n in ast.walk(fi.node)):
                 fallback_fns[fi.qualname] = fi
         for cf in ctx.interp.callfacts:
             if cf.callee.qualname in fallback_fns and cf.caller.qualname in {g.qualname for g in clo}:
